@@ -100,6 +100,22 @@ func (fr *Frame) oblige(kind, name, formula string) *Obl {
 		full = fmt.Sprintf("%s~%d", full, n)
 	}
 	o := &Obl{Name: full, Kind: kind, Guard: fr.reach, Formula: formula, NFacts: len(fr.vc.facts), Pos: fr.pos(), Func: fr.vc.fnKey}
+	if fr.vc.onlyKinds != nil && !fr.vc.onlyKinds[kind] && kind != "stale" {
+		fr.vc.dropped[kind]++
+		return o // generated but not claimed for this function (thin contract)
+	}
+	if fr.vc.onlyLabels != nil && kind != "stale" {
+		keep := false
+		for l := range fr.vc.onlyLabels {
+			if strings.HasSuffix(name, "#"+l) {
+				keep = true
+			}
+		}
+		if !keep {
+			fr.vc.dropped[kind]++
+			return o
+		}
+	}
 	fr.vc.obls = append(fr.vc.obls, o)
 	return o
 }
@@ -423,6 +439,9 @@ func (fr *Frame) loopHead(li *loopInfo, phis []*ssa.Phi) {
 	if len(li.lc.Modifies) > 0 {
 		li.declared = map[string][]string{}
 		for _, m := range li.lc.Modifies {
+			if m.Src == "nothing" {
+				continue
+			}
 			locs, err := fr.evalModifies(m, &evalCtx{fr: fr, st: fr.st, old: fr.entry, loop: li})
 			if err != nil {
 				fr.stale(name+"/modifies", err)
@@ -493,8 +512,11 @@ func (fr *Frame) loopHead(li *loopInfo, phis []*ssa.Phi) {
 			li.variant = c
 		}
 	}
-	// cover: the loop head is reachable under the invariants (vacuity guard)
+	// cover: the loop head is reachable under the invariants (vacuity guard);
+	// inlined callees may legitimately be called with arguments that skip the loop
+	if fr.parent == nil {
 	fr.vc.covers = append(fr.vc.covers, &Obl{Name: fr.oblPrefix + name + "/cover", Kind: "cover", Guard: fr.reach, Formula: "true", NFacts: len(fr.vc.facts), Pos: fr.pos(), Func: fr.vc.fnKey})
+	}
 }
 
 // loopLatch is called when taking a back edge from block b (pred position i of header).
@@ -659,8 +681,23 @@ func (fr *Frame) resolveLocal(name string, li *loopInfo) (*Val, bool) {
 			}
 		}
 	}
+	// an address-taken parameter lives in its own cell: its current value is what the code sees
 	for i, p := range fr.fn.Params {
 		if p.Name() == name {
+			for _, d := range fr.debugRefs {
+				if d.IsAddr {
+					if id, ok := d.Expr.(*ast.Ident); ok && id.Name == name && d.Object() == p.Object() {
+						if v, has := fr.vals[d.X]; has {
+							if v.loc != nil {
+								return fr.load(v.loc), true
+							}
+							if pt, ok := d.X.Type().(*types.Pointer); ok {
+								return fr.load(fr.derefLoc(v, pt.Elem())), true
+							}
+						}
+					}
+				}
+			}
 			return fr.params[i], true
 		}
 	}
